@@ -49,6 +49,20 @@ def variants(doc, tx, rnd):
             items = [{"t": "bare_method", "m": m} for m in ms[k:]]
             res.append(("url_children", doc[:i] + [nb] + doc[i + 1:] + [macro("@mc", items)]))
             break
+    # URL-level Tags / Path in a macro pasted AFTER the methods (the last method closed by a parenthesis)
+    for i, b in enumerate(doc):
+        if b["t"] == "url" and b["methods"] and (b["tags"] or b["pathdecl"]):
+            nb = copy.deepcopy(b)
+            items = []
+            if nb["tags"]:
+                items.append({"t": "raw", "lines": ["Tags " + " ".join(nb["tags"])], "label": "Tags"})
+            if nb["pathdecl"]:
+                names = nb["pathdecl"]
+                items.append({"t": "raw", "label": "Path", "lines": ["Path", "{"] + [
+                    '  "%s": 1%s' % (x, "," if k < len(names) - 1 else "") for k, x in enumerate(names)] + ["}"]})
+            nb["tags"], nb["pathdecl"], nb["late"], nb["extra"] = [], [], True, [paste("@mt")]
+            res.append(("url_tail", doc[:i] + [nb] + doc[i + 1:] + [macro("@mt", items)]))
+            break
     for i, b in enumerate(doc):
         m = b["m"] if b["t"] == "method" else (b["methods"][-1] if b["t"] == "url" and b["methods"] else None)
         if m and m["resps"]:
@@ -151,13 +165,16 @@ def main(tier):
                 {"kind": "macro_reject", "variant": nm, "doc": m["doc"], "file": text, "observed": o, "signature": sig}, sig)
     import macrograph
     macrograph.run(chk, tier, "C07")
+    import treemacro
+    treemacro.run(chk, tier)
     chk.extra["macro_forms_accepted"] = accepted
     chk.extra["macro_forms_rejected_by_kind"] = rejected_forms
     if meta:
         x = next(iter(meta.values()))
         chk.sample({"variant": x[1], "macro_form": x[4][:800]})
     chk.rule = ("pairs (inlined document, macro form) for forms top / nested / twice_nested / unused / url_children / "
-                "method_children / info_children / server_children; plus documents with undefined PASTE, duplicate MACRO, "
+                "method_children / url_tail / info_children / server_children; tree documents of JSightTree with a balanced run of items moved "
+                "into a macro (expanded forest = placement rule on the inlined document); plus documents with undefined PASTE, duplicate MACRO, "
                 "paste cycles of length 1..4 (unused, pasted, entered through another macro); non-trivial = macro form accepted "
                 "(so the catalogs were compared) or a rejection case")
     chk.assumptions += ["a macro body is rendered in explicit parentheses", "catalogs compared as JSON values (object key "
@@ -174,6 +191,9 @@ def replay(path):
         a, b = obs["a"], obs["b"]
         if b["outcome"] in ("panic", "fatal", "timeout") or (b["outcome"] == "ok" and (a["outcome"] != "ok" or json.loads(a["json"]) != json.loads(b["json"]))):
             chk.violation("macro form %s vs inlined %s" % (rel.describe(b), rel.describe(a)), rp, rp.get("signature"))
+    elif rp["kind"] == "tree_macro":
+        import treemacro
+        treemacro.replay(chk, rp)
     elif rp["kind"] == "paste_graph":
         o = harness("run", [rel.case("a", rp["file"], timeout=20000)])["a"]
         if o["outcome"] in ("panic", "fatal", "timeout") or (rp["expected"].startswith("rejected") and o["outcome"] != "error"):
